@@ -31,9 +31,11 @@ BASE = dict(exits=False, yields=True, time_advance=False, alias_arrays=False, ma
 
 @st.composite
 def pairs(draw):
-    a = draw(methods(BASE))
+    # one method's loop counter is the other method's ordinary temporary (and vice versa)
+    from vlib.progen import REAL_TEMPS
+    a = draw(methods(dict(BASE, loop_vars=["i"], real_temps=REAL_TEMPS + ["j"])))
     force = [(p["name"], p["next"]) for p in a["phases"]]
-    b = draw(methods(dict(BASE, force_phases=force)))
+    b = draw(methods(dict(BASE, force_phases=force, loop_vars=["j"], real_temps=REAL_TEMPS + ["i"])))
     pred = draw(st.sampled_from(["none", "nonpersistent", "nonpersistent", "keep_one", "also_p"]))
     # a phase that exists in one method only (must be taken over unchanged); nothing points to it
     extra = draw(st.sampled_from(["none", "none", "a", "b", "both"]))
@@ -340,9 +342,6 @@ def check_case(case):
                 return "phase %s: renaming is not injective: %s and %s both become %s" % (pname, inv[y], x, y), info
             inv[y] = x
         pa_names = set().union(*[stmt_names(s) for s in sa]) if sa else set()
-        # a name that both methods use only as the counter of a statement's own loop cannot interfere
-        # (each loop sets its counter before its body reads it): not a collision
-        pa_names -= counters_only(sa) & counters_only(sb)
         for x, y in sorted(rho.items()):
             if not pred(x):
                 if y != x:
